@@ -95,6 +95,44 @@ pub enum Node {
     /// `with_weighted_item` / `WeightedPair::new` accept any such member
     Own(LeafSel, u32),
     Pair(Box<WeightedPair<Node, Node>>),
+    /// a small tree built DIRECTLY out of the repository's types (`WeightedPair<WeightedPair<Weighted<_>, ..>, ..>`,
+    /// left combs through the chain API, as a user writes them): no harness carrier between the levels
+    Direct(Box<dyn DirectSel>),
+}
+
+/// a directly nested tree behind one pointer: selection with the error translated into the carrier's shape
+pub trait DirectSel {
+    fn sel<'p>(&self, pop: &'p Pop, rng: &mut dyn rand::RngCore) -> Result<&'p Probe, NodeErr>;
+    fn w(&self) -> u32;
+}
+pub trait IntoNodeErr {
+    fn into_node(self) -> NodeErr;
+}
+impl IntoNodeErr for SelectionError<LeafErr> {
+    fn into_node(self) -> NodeErr {
+        NodeErr::Leaf(self)
+    }
+}
+impl<A: IntoNodeErr, B: IntoNodeErr> IntoNodeErr for SelectionError<WeightedPairError<A, B>> {
+    fn into_node(self) -> NodeErr {
+        NodeErr::Pair(Box::new(match self {
+            SelectionError::ZeroWeight(z) => SelectionError::ZeroWeight(z),
+            SelectionError::Selector(WeightedPairError::A(a)) => SelectionError::Selector(WeightedPairError::A(a.into_node())),
+            SelectionError::Selector(WeightedPairError::B(b)) => SelectionError::Selector(WeightedPairError::B(b.into_node())),
+        }))
+    }
+}
+impl<T> DirectSel for T
+where
+    T: Selector<Pop> + WithWeight,
+    T::Error: IntoNodeErr,
+{
+    fn sel<'p>(&self, pop: &'p Pop, mut rng: &mut dyn rand::RngCore) -> Result<&'p Probe, NodeErr> {
+        self.select(pop, &mut rng).map_err(IntoNodeErr::into_node)
+    }
+    fn w(&self) -> u32 {
+        self.weight()
+    }
 }
 
 #[derive(Debug)]
@@ -109,19 +147,21 @@ impl WithWeight for Node {
             Self::Leaf(l) => l.weight(),
             Self::Own(_, w) => *w,
             Self::Pair(p) => p.weight(),
+            Self::Direct(d) => d.w(),
         }
     }
 }
 
 impl Selector<Pop> for Node {
     type Error = NodeErr;
-    fn select<'p, R: Rng + ?Sized>(&self, pop: &'p Pop, rng: &mut R) -> Result<&'p Probe, NodeErr> {
+    fn select<'p, R: Rng + ?Sized>(&self, pop: &'p Pop, mut rng: &mut R) -> Result<&'p Probe, NodeErr> {
         match self {
             Self::Leaf(l) => l.select(pop, rng).map_err(NodeErr::Leaf),
             // as `Weighted` does: a member of weight zero is never delegated to
             Self::Own(_, 0) => Err(NodeErr::Leaf(ec_core::weighted::error::ZeroWeight.into())),
             Self::Own(sel, _) => sel.select(pop, rng).map_err(|e| NodeErr::Leaf(SelectionError::Selector(e))),
             Self::Pair(p) => p.select(pop, rng).map_err(|e| NodeErr::Pair(Box::new(e))),
+            Self::Direct(d) => d.sel(pop, &mut rng),
         }
     }
 }
@@ -145,8 +185,10 @@ fn leaf_sel(spec: &Value) -> LeafSel {
 pub fn build(t: &Value) -> Option<Node> {
     let n = BUILDS.with(|b| { b.set(b.get() + 1); b.get() });
     OWN_FLAVOUR.with(|f| f.set(n % 2 == 0));
+    DIRECT.with(|f| f.set(n % 4 == 1));
     let r = build_scaled(t, 1);
     OWN_FLAVOUR.with(|f| f.set(false));
+    DIRECT.with(|f| f.set(false));
     r
 }
 
@@ -154,6 +196,48 @@ thread_local! {
     static DECOY: Cell<u64> = const { Cell::new(0) };
     static OWN_FLAVOUR: Cell<bool> = const { Cell::new(false) };
     static BUILDS: Cell<u64> = const { Cell::new(0) };
+    static DIRECT: Cell<bool> = const { Cell::new(false) };
+}
+
+pub static DIRECT_BUILT: std::sync::atomic::AtomicU64 = std::sync::atomic::AtomicU64::new(0);
+/// the five tree shapes of up to four leaves that are built directly (see `Node::Direct`)
+fn build_direct(t: &Value, scale: u64) -> Option<Option<Node>> {
+    let leaf = |x: &Value| -> Option<Weighted<LeafSel>> {
+        (x["t"] == "leaf").then(|| Weighted::new(leaf_sel(x), u32::try_from(u(&x["w"]) * scale).expect("scaled weight fits u32")))
+    };
+    let is_leaf = |x: &Value| x["t"] == "leaf";
+    let done = |r: Result<Box<dyn DirectSel>, ec_core::weighted::error::WeightSumOverflow>| {
+        DIRECT_BUILT.fetch_add(1, std::sync::atomic::Ordering::Relaxed);
+        Some(r.ok().map(Node::Direct))
+    };
+    if is_leaf(t) {
+        return None;
+    }
+    let (a, b) = (&t["a"], &t["b"]);
+    if is_leaf(a) && is_leaf(b) {
+        // the chain API: Weighted::with_weighted_item
+        return done(leaf(a)?.with_weighted_item(leaf(b)?).map(|p| Box::new(p) as Box<dyn DirectSel>));
+    }
+    if !is_leaf(a) && is_leaf(b) && is_leaf(&a["a"]) && is_leaf(&a["b"]) {
+        return done(leaf(&a["a"])?.with_weighted_item(leaf(&a["b"])?).and_then(|p| p.with_weighted_item(leaf(b).expect("leaf")))
+            .map(|p| Box::new(p) as Box<dyn DirectSel>));
+    }
+    if is_leaf(a) && !is_leaf(b) && is_leaf(&b["a"]) && is_leaf(&b["b"]) {
+        return done(WeightedPair::new(leaf(&b["a"])?, leaf(&b["b"])?).and_then(|q| WeightedPair::new(leaf(a).expect("leaf"), q))
+            .map(|p| Box::new(p) as Box<dyn DirectSel>));
+    }
+    if !is_leaf(a) && !is_leaf(b) && is_leaf(&a["a"]) && is_leaf(&a["b"]) && is_leaf(&b["a"]) && is_leaf(&b["b"]) {
+        return done(WeightedPair::new(leaf(&a["a"])?, leaf(&a["b"])?)
+            .and_then(|p| WeightedPair::new(leaf(&b["a"]).expect("leaf"), leaf(&b["b"]).expect("leaf")).and_then(|q| WeightedPair::new(p, q)))
+            .map(|p| Box::new(p) as Box<dyn DirectSel>));
+    }
+    if !is_leaf(a) && is_leaf(b) && !is_leaf(&a["a"]) && is_leaf(&a["b"]) && is_leaf(&a["a"]["a"]) && is_leaf(&a["a"]["b"]) {
+        return done(leaf(&a["a"]["a"])?.with_weighted_item(leaf(&a["a"]["b"])?)
+            .and_then(|p| p.with_weighted_item(leaf(&a["b"]).expect("leaf")))
+            .and_then(|p| p.with_weighted_item(leaf(b).expect("leaf")))
+            .map(|p| Box::new(p) as Box<dyn DirectSel>));
+    }
+    None
 }
 /// every leaf weight multiplied by `scale` (the law depends on the ratios only: ScaleInvariant)
 pub fn build_scaled(t: &Value, scale: u64) -> Option<Node> {
@@ -163,6 +247,12 @@ pub fn build_scaled(t: &Value, scale: u64) -> Option<Node> {
         let own = OWN_FLAVOUR.with(|f| f.get()) && t.get("sel").is_none();
         Some(if own { Node::Own(leaf_sel(t), w) } else { Node::Leaf(Weighted::new(leaf_sel(t), w)) })
     } else {
+        // every fourth build of a tree nests the repository's types directly where the shape is a small one
+        if DIRECT.with(|f| f.get()) {
+            if let Some(r) = build_direct(t, scale) {
+                return r;
+            }
+        }
         let (a, b) = (build_scaled(&t["a"], scale)?, build_scaled(&t["b"], scale)?);
         WeightedPair::new(a, b).ok().map(|p| Node::Pair(Box::new(p)))
     }
@@ -407,7 +497,7 @@ pub fn replay(args: &[String]) -> i32 {
             }
         }
     }
-    out.line(&json!({"kind": "summary", "cases": n, "mismatches": bad}));
+    out.line(&json!({"kind": "summary", "cases": n, "mismatches": bad, "directly_nested_trees_built": DIRECT_BUILT.load(std::sync::atomic::Ordering::Relaxed)}));
     out.finish();
     0
 }
@@ -426,7 +516,11 @@ pub fn law(args: &[String]) -> i32 {
         let mut counts = vec![0u64; cells];
         let mut other = 0u64;
         if case["op"] == "select" {
-            let node = build_scaled(&case["tree"], c["scale"].as_u64().unwrap_or(1)).expect("law trees are constructible");
+            // the laws too: every second law tree nests the repository's types directly where its shape allows
+            DIRECT.with(|f| f.set(ci % 2 == 1));
+            let node = build_scaled(&case["tree"], c["scale"].as_u64().unwrap_or(1));
+            DIRECT.with(|f| f.set(false));
+            let node = node.expect("law trees are constructible");
             for _ in 0..n {
                 let ob = select_marker_tree(&case["tree"], &node, &pop, &mut rng);
                 match ob["m"].as_u64() {
